@@ -95,6 +95,7 @@ def handle (l : Line) : Option Verdict :=
   | "trunc" => some (handleTrunc l)
   | "c04" => some (handleC04 l)
   | "abort" => some (verdict [] [])
+  | "abortw" => some (verdict [] [])    -- abort of a wide-schema writer: judged by the C-side predicates
   | _ => none
 
 end Driver.Ops.FileRead
